@@ -251,6 +251,20 @@ func runEnum(seed uint64, cas int, tier string) *EnumRes {
 	if dfh == nil {
 		return res
 	}
+	// an enumeration request that names one of the directory's children (a
+	// file, a symlink) must be refused and must not get in the way of the
+	// enumerations of the directory itself (READDIRPLUS looks at every child)
+	for n := range set {
+		lk := doOp(s.srv.API, &Op{K: OpLookup, H: dfh, Name: n})
+		if lk.Stat == stOK && int(lk.Ftype) != KDir {
+			for _, k := range []OpKind{OpReaddir, OpReaddirplus} {
+				if r := doOp(s.srv.API, &Op{K: k, H: lk.FH, Count: 4096, Dircount: 4096}); r.Stat == stOK {
+					e.viol("%s of the non-directory %s succeeds", k, shortName(n))
+				}
+			}
+			break
+		}
+	}
 	counts := []uint32{0, 1, 2, 50, 90, 100, 128, 160, 200, 300, 512, 1000, 4096, 65536, ^uint32(0)}
 	dcs := []uint32{0, 1, 20, 40, 100, 512, 4096, ^uint32(0)}
 	type lim2 struct {
